@@ -8,6 +8,7 @@ import (
 	"os"
 	"path/filepath"
 	"sort"
+	"strconv"
 	"strings"
 	"sync"
 	"time"
@@ -18,7 +19,7 @@ import (
 )
 
 type Violation struct {
-	Kind     string   `json:"kind"` // assert | panic | frame | unwind
+	Kind     string   `json:"kind"` // assert | panic | frame | unwind | memory
 	AssertID string   `json:"assert_id"`
 	Tags     []string `json:"tags"`
 	Where    string   `json:"where,omitempty"`
@@ -26,30 +27,72 @@ type Violation struct {
 	Widths   []int    `json:"widths"`
 	Text     string   `json:"text,omitempty"` // byte-valued nondets rendered as a Go string
 	Count    int      `json:"count"`
+	Solver   string   `json:"solver_answer,omitempty"`
 }
 
 func (v *Violation) key() string { return v.Kind + "|" + v.AssertID + "|" + strings.Join(v.Tags, ",") }
 
+type Sample struct {
+	End    string   `json:"end"`
+	Vector []uint64 `json:"vector"`
+	Text   string   `json:"text,omitempty"`
+	Tags   []string `json:"tags,omitempty"`
+	Cover  []string `json:"cover,omitempty"`
+}
+
+type Dropped struct {
+	File  string `json:"file"`
+	Error string `json:"error"`
+}
+
 type Result struct {
-	Entry       string             `json:"entry"`
-	Paths       int                `json:"paths"`
-	Forks       int                `json:"forks_solver"`
-	Merges      int                `json:"if_conversions"`
-	Queries     int                `json:"queries"`
-	SolverS     float64            `json:"solver_s"`
-	WallS       float64            `json:"wall_s"`
-	Ends        map[string]int     `json:"path_ends"`
-	EndDetails  map[string]int     `json:"path_end_details"`
-	Cover       map[string]int     `json:"cover"`
-	Violations  []*Violation       `json:"violations"`
-	Funcs       map[string]int     `json:"functions_encoded"`
-	Races       []string           `json:"race_candidates,omitempty"`
-	Workers     int                `json:"workers"`
-	Incomplete  bool               `json:"incomplete"`
-	viol        map[string]*Violation
+	Entry      string            `json:"entry"`
+	Params     map[string]int64  `json:"params"`
+	Paths      int               `json:"paths"`
+	Forks      int               `json:"forks_solver"`
+	ForksEnum  int               `json:"forks_enumerated"`
+	Merges     int               `json:"if_conversions"`
+	Queries    int               `json:"queries"`
+	SolverS    float64           `json:"solver_s"`
+	WallS      float64           `json:"wall_s"`
+	LoadS      float64           `json:"load_s"`
+	Ends       map[string]int    `json:"path_ends"`
+	EndDetails map[string]int    `json:"path_end_details"`
+	Cover      map[string]int    `json:"cover"`
+	Violations []*Violation      `json:"violations"`
+	Samples    []Sample          `json:"samples"`
+	Funcs      map[string]int    `json:"functions_encoded"`
+	StdFuncs   map[string]int    `json:"stdlib_interpreted"`
+	Models     map[string]int    `json:"models_used"`
+	Races      []string          `json:"race_candidates,omitempty"`
+	Workers    int               `json:"workers"`
+	Incomplete bool              `json:"incomplete"`
+	Reason     string            `json:"incomplete_reason,omitempty"`
+	MaxUnwind  int               `json:"max_unwinding_seen"`
+	Unwind     int               `json:"unwind_bound"`
+	Solver     string            `json:"solver"`
+	Dropped    []Dropped         `json:"harness_dropped,omitempty"`
+	Missing    bool              `json:"entry_missing,omitempty"`
+	viol       map[string]*Violation
 }
 
 func (e *Engine) reportViolation(id string, neg *Term) { e.reportKind("assert", id, neg) }
+
+func (e *Engine) modelVector(neg *Term) ([]uint64, []int, string, bool) {
+	vals, ok := e.solver.Model(neg, e.symVars)
+	if !ok {
+		return nil, nil, "", false
+	}
+	var widths []int
+	var bs []byte
+	for i, sv := range e.symVars {
+		widths = append(widths, sv.W)
+		if sv.W == 8 {
+			bs = append(bs, byte(vals[i]))
+		}
+	}
+	return vals, widths, fmt.Sprintf("%q", bs), true
+}
 
 func (e *Engine) reportKind(kind, id string, neg *Term) {
 	e.violations++
@@ -59,22 +102,16 @@ func (e *Engine) reportKind(kind, id string, neg *Term) {
 		old.Count++
 		return
 	}
-	vals, ok := e.solver.Model(neg, e.symVars)
-	if ok {
-		v.Vector = vals
-		var bs []byte
-		for i, sv := range e.symVars {
-			v.Widths = append(v.Widths, sv.W)
-			if sv.W == 8 {
-				bs = append(bs, byte(vals[i]))
-			}
-		}
-		v.Text = fmt.Sprintf("%q", bs)
+	if vals, widths, text, ok := e.modelVector(neg); ok {
+		v.Vector, v.Widths, v.Text = vals, widths, text
+	}
+	if v.Vector == nil {
+		v.Vector = []uint64{}
 	}
 	e.found[v.key()] = v
 }
 
-func (e *Engine) runPath(entry *ssa.Function, prefix []int) (end pathEnd) {
+func (e *Engine) resetPath(prefix []int) {
 	e.prefix = prefix
 	e.trace = nil
 	e.pc = nil
@@ -83,6 +120,7 @@ func (e *Engine) runPath(entry *ssa.Function, prefix []int) (end pathEnd) {
 	e.steps = 0
 	e.depth = 0
 	e.tags = nil
+	e.pathCover = nil
 	e.vecPos = 0
 	e.observed = nil
 	e.symbolicSeen = false
@@ -96,8 +134,17 @@ func (e *Engine) runPath(entry *ssa.Function, prefix []int) (end pathEnd) {
 	e.globals = map[*ssa.Global]*Value{}
 	e.parent = map[*Value]parentInfo{}
 	e.pools = map[*Value][]Value{}
+	e.inPool = map[*Value]bool{}
 	e.byteBacking = nil
+	e.clock = 0
+	e.panicking = nil
+	e.poolModel = 0
+	e.enumForksPath = 0
 	e.solver.Reset()
+}
+
+func (e *Engine) runPath(entry *ssa.Function, prefix []int) (end pathEnd) {
+	e.resetPath(prefix)
 	defer func() {
 		if r := recover(); r != nil {
 			switch r := r.(type) {
@@ -106,29 +153,43 @@ func (e *Engine) runPath(entry *ssa.Function, prefix []int) (end pathEnd) {
 				if r.kind == "fuel" {
 					e.reportKind("unwind", r.msg, nil)
 				}
+				if r.kind == "violation" {
+					e.reportKind("memory", r.msg, nil)
+				}
 			case goPanic:
-				end = pathEnd{"panic", e.valString(r.v)}
-				e.reportKind("panic", end.msg, nil)
+				end = pathEnd{"panic", e.valString(r.v) + " @ " + e.where()}
+				if e.panicsReport {
+					e.reportKind("panic", e.valString(r.v), nil)
+				}
 			case unsupportedErr:
 				where := ""
 				if e.cur != nil {
 					where = fmt.Sprintf(" @ %s: %s [%s]", e.cur.Parent(), e.cur, e.prog.Fset.Position(e.cur.Pos()))
 				}
 				end = pathEnd{"unsupported", r.msg + where}
-			default:
-				if e.batch {
-					top := ""
-					if len(e.stack) > 0 {
-						top = e.stack[len(e.stack)-1]
+				if os.Getenv("SYMX_DEBUG") != "" {
+					fmt.Println("UNSUPPORTED", r.msg, "; ssa stack:")
+					for _, f := range e.stack {
+						fmt.Println("   ", f)
 					}
-					end = pathEnd{"internal", fmt.Sprintf("%v in %s", r, top)}
-					return
 				}
-				fmt.Println("INTERNAL PANIC; ssa stack:")
-				for _, f := range e.stack {
-					fmt.Println("   ", f)
+			default:
+				top := ""
+				if len(e.stack) > 0 {
+					top = e.stack[len(e.stack)-1]
 				}
-				panic(r)
+				where := ""
+				if e.cur != nil {
+					where = fmt.Sprintf(" @ %s [%s]", e.cur, e.prog.Fset.Position(e.cur.Pos()))
+				}
+				end = pathEnd{"internal", fmt.Sprintf("%v in %s%s", r, top, where)}
+				if os.Getenv("SYMX_DEBUG") != "" {
+					fmt.Println("INTERNAL PANIC; ssa stack:")
+					for _, f := range e.stack {
+						fmt.Println("   ", f)
+					}
+					panic(r)
+				}
 			}
 		}
 	}()
@@ -137,113 +198,232 @@ func (e *Engine) runPath(entry *ssa.Function, prefix []int) (end pathEnd) {
 	return pathEnd{"ok", ""}
 }
 
-func newEngine(prog *ssa.Program, pkg *ssa.Package, fuel, unwind int, merge bool) *Engine {
-	return &Engine{prog: prog, pkg: pkg, solver: NewSolver(), fuel: fuel, unwind: unwind, mergeOn: merge,
-		covered: map[string]int{}, funcsSeen: map[string]int{}, found: map[string]*Violation{},
-		accesses: map[string]map[access]int{}, sizes: types.SizesFor("gc", "amd64")}
+func newEngine(prog *ssa.Program, pkg *ssa.Package, cfg *Config) *Engine {
+	return &Engine{prog: prog, pkg: pkg, solver: NewSolver(cfg.Solver), fuel: cfg.Fuel, unwind: cfg.Unwind, mergeOn: cfg.Merge,
+		covered: map[string]int{}, funcsSeen: map[string]int{}, stdSeen: map[string]int{}, modelsSeen: map[string]int{}, found: map[string]*Violation{},
+		accesses: map[string]map[access]int{}, sizes: types.SizesFor("gc", "amd64"), params: cfg.Params,
+		panicsReport: cfg.Panics == "report", maxDepth: cfg.Depth}
+}
+
+type Config struct {
+	Entry    string
+	Params   map[string]int64
+	Fuel     int
+	Unwind   int
+	Depth    int
+	MaxPaths int
+	Merge    bool
+	Workers  int
+	Timeout  time.Duration
+	Panics   string
+	Samples  int
+	Solver   string
+	Harness  string
+	Repo     string
+}
+
+func parseParams(s string) map[string]int64 {
+	m := map[string]int64{}
+	for _, kv := range strings.Split(s, ",") {
+		kv = strings.TrimSpace(kv)
+		if kv == "" {
+			continue
+		}
+		i := strings.Index(kv, "=")
+		if i < 0 {
+			continue
+		}
+		v, _ := strconv.ParseInt(kv[i+1:], 10, 64)
+		m[kv[:i]] = v
+	}
+	return m
+}
+
+// load builds SSA for /repo with the harness overlay. Harness files that no longer type-check against
+// the (possibly edited) tree are dropped one by one; errors elsewhere are fatal.
+func load(cfg *Config) (*ssa.Program, *ssa.Package, []Dropped, error) {
+	overlay := map[string][]byte{}
+	hs, _ := filepath.Glob(cfg.Harness + "/zz_*.go")
+	for _, h := range hs {
+		b, _ := os.ReadFile(h)
+		overlay[filepath.Join(cfg.Repo, filepath.Base(h))] = b
+	}
+	var dropped []Dropped
+	for attempt := 0; attempt < 40; attempt++ {
+		pc := &packages.Config{Mode: packages.LoadAllSyntax, Dir: cfg.Repo, Overlay: overlay,
+			Env: append(os.Environ(), "GOFLAGS=-mod=mod", "GOPROXY=off")}
+		pkgs, err := packages.Load(pc, ".")
+		if err != nil {
+			return nil, nil, dropped, err
+		}
+		var bad []string
+		var fatal []string
+		packages.Visit(pkgs, nil, func(p *packages.Package) {
+			for _, pe := range p.Errors {
+				f := pe.Pos
+				if i := strings.Index(f, ":"); i > 0 {
+					f = f[:i]
+				}
+				base := filepath.Base(f)
+				if strings.HasPrefix(base, "zz_") && base != "zz_verif_api.go" {
+					if _, still := overlay[filepath.Join(cfg.Repo, base)]; still {
+						bad = append(bad, base)
+						dropped = append(dropped, Dropped{File: base, Error: pe.Msg})
+						delete(overlay, filepath.Join(cfg.Repo, base))
+					}
+				} else {
+					fatal = append(fatal, pe.Error())
+				}
+			}
+		})
+		if len(bad) > 0 {
+			continue
+		}
+		if len(fatal) > 0 {
+			// errors outside harness files may be induced by a dropped harness helper; report
+			return nil, nil, dropped, fmt.Errorf("package does not type-check: %s", strings.Join(fatal, "; "))
+		}
+		prog, spkgs := ssautil.AllPackages(pkgs, ssa.InstantiateGenerics)
+		prog.Build()
+		return prog, spkgs[0], dropped, nil
+	}
+	return nil, nil, dropped, fmt.Errorf("could not obtain a type-correct overlay")
+}
+
+func parseVector(line string) []uint64 {
+	out := []uint64{}
+	for _, f := range strings.Split(line, ",") {
+		f = strings.TrimSpace(f)
+		if f == "" {
+			continue
+		}
+		v, _ := strconv.ParseUint(f, 10, 64)
+		out = append(out, v)
+	}
+	return out
+}
+
+func (e *Engine) concreteObs(entry *ssa.Function, vec []uint64) string {
+	e.vector = vec
+	e.found = map[string]*Violation{}
+	end := e.runPath(entry, nil)
+	obs := append([]string{}, e.observed...)
+	switch end.kind {
+	case "ok":
+	case "panic":
+		obs = append(obs, "PANIC")
+	case "infeasible":
+		obs = append(obs, "END-infeasible")
+	default:
+		obs = append(obs, "END-"+end.kind+":"+end.msg)
+	}
+	return strings.Join(obs, " ;; ")
 }
 
 func main() {
-	entryName := flag.String("entry", "VH_Agree", "harness entry")
-	fuel := flag.Int("fuel", 3000000, "steps per path")
-	maxPaths := flag.Int("maxpaths", 1000000, "")
-	merge := flag.Bool("merge", true, "if-conversion")
-	unwind := flag.Int("unwind", 5000, "max visits of one block per frame once symbolic values exist")
-	workers := flag.Int("workers", 8, "")
+	cfg := &Config{}
+	flag.StringVar(&cfg.Entry, "entry", "", "harness entry function")
+	params := flag.String("param", "", "k=v,k=v harness parameters (symParam)")
+	flag.IntVar(&cfg.Fuel, "fuel", 5000000, "steps per path")
+	flag.IntVar(&cfg.MaxPaths, "maxpaths", 2000000, "")
+	flag.BoolVar(&cfg.Merge, "merge", true, "if-conversion")
+	flag.IntVar(&cfg.Unwind, "unwind", 5000, "max visits of one block per frame once symbolic values exist")
+	flag.IntVar(&cfg.Depth, "depth", 250, "max call depth")
+	flag.IntVar(&cfg.Workers, "workers", 16, "")
+	flag.DurationVar(&cfg.Timeout, "timeout", 10*time.Minute, "wall budget for the exploration")
+	flag.StringVar(&cfg.Panics, "panics", "cut", "cut|report: whether a Go panic on a path is a violation")
+	flag.IntVar(&cfg.Samples, "samples", 6, "path witnesses to record")
+	flag.StringVar(&cfg.Solver, "solver", os.Getenv("SOLVER"), "solver command (default z3 -in)")
 	jsonOut := flag.String("json", "", "write result JSON here")
-	harnessDir := flag.String("harness", "/tmp/proto/harness", "")
-	vectorsFile := flag.String("vectors", "", "file of vectors: concrete batch mode")
-	vector := flag.String("vector", "", "comma separated nondet values: run one concrete path and print observations")
+	flag.StringVar(&cfg.Harness, "harness", "/verif/harness", "")
+	flag.StringVar(&cfg.Repo, "repo", "/repo", "")
+	vectorsFile := flag.String("vectors", "", "file of vectors: concrete batch mode, prints observations")
+	listEntries := flag.Bool("list", false, "list harness entries")
+	quiet := flag.Bool("q", false, "")
 	flag.Parse()
+	cfg.Params = parseParams(*params)
 
 	t0 := time.Now()
-	overlay := map[string][]byte{}
-	hs, _ := filepath.Glob(*harnessDir + "/*.go")
-	for _, h := range hs {
-		b, _ := os.ReadFile(h)
-		overlay["/repo/"+filepath.Base(h)] = b
-	}
-	cfg := &packages.Config{Mode: packages.LoadAllSyntax, Dir: "/repo", Overlay: overlay,
-		Env: append(os.Environ(), "GOFLAGS=-mod=mod", "GOPROXY=off")}
-	pkgs, err := packages.Load(cfg, ".")
+	prog, pkg, dropped, err := load(cfg)
 	if err != nil {
-		panic(err)
+		fmt.Println("LOAD-ERROR:", err)
+		if *jsonOut != "" {
+			b, _ := json.MarshalIndent(map[string]interface{}{"load_error": err.Error(), "harness_dropped": dropped}, "", " ")
+			os.WriteFile(*jsonOut, b, 0644)
+		}
+		os.Exit(3)
 	}
-	if packages.PrintErrors(pkgs) > 0 {
-		os.Exit(2)
-	}
-	prog, spkgs := ssautil.AllPackages(pkgs, ssa.InstantiateGenerics)
-	prog.Build()
 	loadS := time.Since(t0)
-	pkg := spkgs[0]
-	entry := pkg.Func(*entryName)
+	if *listEntries {
+		var names []string
+		for n := range pkg.Members {
+			if strings.HasPrefix(n, "VH_") {
+				names = append(names, n)
+			}
+		}
+		sort.Strings(names)
+		fmt.Println(strings.Join(names, "\n"))
+		return
+	}
+	res := &Result{Entry: cfg.Entry, Params: cfg.Params, Ends: map[string]int{}, EndDetails: map[string]int{}, Cover: map[string]int{},
+		Funcs: map[string]int{}, StdFuncs: map[string]int{}, Models: map[string]int{}, viol: map[string]*Violation{}, Workers: cfg.Workers,
+		Dropped: dropped, Unwind: cfg.Unwind, LoadS: loadS.Seconds(), Solver: cfg.Solver, Violations: []*Violation{}, Samples: []Sample{}}
+	if res.Solver == "" {
+		res.Solver = "z3 -in"
+	}
+	writeJSON := func() {
+		if *jsonOut != "" {
+			b, _ := json.MarshalIndent(res, "", " ")
+			os.WriteFile(*jsonOut, b, 0644)
+		}
+	}
+	entry := pkg.Func(cfg.Entry)
 	if entry == nil {
-		panic("no entry " + *entryName)
+		res.Missing = true
+		fmt.Println("ENTRY-MISSING:", cfg.Entry)
+		writeJSON()
+		os.Exit(4)
 	}
 
 	if *vectorsFile != "" {
 		data, _ := os.ReadFile(*vectorsFile)
-		e := newEngine(prog, pkg, *fuel, *unwind, *merge)
-		e.batch = true
+		e := newEngine(prog, pkg, cfg)
 		for _, line := range strings.Split(strings.TrimSpace(string(data)), "\n") {
-			e.vector = []uint64{}
-			for _, f := range strings.Split(line, ",") {
-				var v uint64
-				fmt.Sscan(strings.TrimSpace(f), &v)
-				e.vector = append(e.vector, v)
-			}
-			end := e.runPath(entry, nil)
-			obs := e.observed
-			if end.kind == "panic" {
-				obs = append(obs, "PANIC")
-			} else if end.kind != "ok" {
-				obs = append(obs, "END-"+end.kind+":"+end.msg)
-			}
-			fmt.Printf("VEC %s :: %s\n", line, strings.Join(obs, " ;; "))
+			fmt.Printf("VEC %s :: %s\n", line, e.concreteObs(entry, parseVector(line)))
 		}
+		e.solver.Close()
 		return
 	}
-	if *vector != "" {
-		e := newEngine(prog, pkg, *fuel, *unwind, *merge)
-		e.vector = []uint64{}
-		for _, f := range strings.Split(*vector, ",") {
-			var v uint64
-			fmt.Sscan(strings.TrimSpace(f), &v)
-			e.vector = append(e.vector, v)
-		}
-		end := e.runPath(entry, nil)
-		fmt.Println("END", end.kind, end.msg)
-		for _, o := range e.observed {
-			fmt.Println("OBS", o)
-		}
-		for _, v := range e.found {
-			fmt.Println("FAILED", v.Kind, v.AssertID)
-		}
-		return
-	}
-	res := &Result{Entry: *entryName, Ends: map[string]int{}, EndDetails: map[string]int{}, Cover: map[string]int{},
-		Funcs: map[string]int{}, viol: map[string]*Violation{}, Workers: *workers}
+
 	var mu sync.Mutex
 	queue := [][]int{{}}
 	active := 0
 	cond := sync.NewCond(&mu)
 	t1 := time.Now()
+	deadline := t1.Add(cfg.Timeout)
 	var wg sync.WaitGroup
-	engines := make([]*Engine, *workers)
-	for w := 0; w < *workers; w++ {
+	engines := make([]*Engine, cfg.Workers)
+	for w := 0; w < cfg.Workers; w++ {
 		wg.Add(1)
 		go func(w int) {
 			defer wg.Done()
-			e := newEngine(prog, pkg, *fuel, *unwind, *merge)
+			e := newEngine(prog, pkg, cfg)
 			engines[w] = e
 			for {
 				mu.Lock()
 				for len(queue) == 0 && active > 0 {
 					cond.Wait()
 				}
-				if len(queue) == 0 || res.Paths >= *maxPaths {
+				stop := ""
+				if res.Paths >= cfg.MaxPaths {
+					stop = "maxpaths"
+				} else if time.Now().After(deadline) {
+					stop = "timeout"
+				}
+				if len(queue) == 0 || stop != "" {
 					if len(queue) > 0 {
 						res.Incomplete = true
+						res.Reason = stop
 					}
 					mu.Unlock()
 					cond.Broadcast()
@@ -256,7 +436,22 @@ func main() {
 				mu.Unlock()
 
 				e.pending = nil
+				e.deadline = deadline
 				end := e.runPath(entry, p)
+				var smp *Sample
+				if end.kind != "infeasible" {
+					mu.Lock()
+					want := len(res.Samples) < cfg.Samples
+					mu.Unlock()
+					if want {
+						if vals, _, text, ok := e.modelVector(nil); ok {
+							smp = &Sample{End: end.kind, Vector: vals, Text: text, Tags: append([]string{}, e.tags...), Cover: append([]string{}, e.pathCover...)}
+							if smp.Vector == nil {
+								smp.Vector = []uint64{}
+							}
+						}
+					}
+				}
 
 				mu.Lock()
 				queue = append(queue, e.pending...)
@@ -264,6 +459,9 @@ func main() {
 				res.Ends[end.kind]++
 				if end.kind != "ok" {
 					res.EndDetails[end.kind+": "+end.msg]++
+				}
+				if smp != nil && len(res.Samples) < cfg.Samples {
+					res.Samples = append(res.Samples, *smp)
 				}
 				mu.Unlock()
 				cond.Broadcast()
@@ -278,14 +476,24 @@ func main() {
 			continue
 		}
 		res.Forks += e.forks
+		res.ForksEnum += e.enumForks
 		res.Merges += e.merges
 		res.Queries += e.solver.Queries
 		res.SolverS += e.solver.Time.Seconds()
+		if e.maxUnwindSeen > res.MaxUnwind {
+			res.MaxUnwind = e.maxUnwindSeen
+		}
 		for k, v := range e.covered {
 			res.Cover[k] += v
 		}
 		for k, v := range e.funcsSeen {
 			res.Funcs[k] += v
+		}
+		for k, v := range e.stdSeen {
+			res.StdFuncs[k] += v
+		}
+		for k, v := range e.modelsSeen {
+			res.Models[k] += v
 		}
 		for k, v := range e.found {
 			if old, ok := res.viol[k]; ok {
@@ -313,28 +521,38 @@ func main() {
 		res.Violations = append(res.Violations, res.viol[k])
 	}
 	res.Races = raceCandidates(accesses)
+	for k, n := range res.Ends {
+		if (k == "unsupported" || k == "internal" || k == "fuel") && n > 0 && !res.Incomplete {
+			// paths were cut: exploration is not exhaustive within the bound
+			res.Incomplete = true
+			res.Reason = "paths cut: " + k
+		}
+	}
 
-	fmt.Printf("load=%.1fs entry=%s workers=%d paths=%d forks=%d merges=%d queries=%d solver=%.1fs wall=%.1fs incomplete=%v\n",
-		loadS.Seconds(), res.Entry, *workers, res.Paths, res.Forks, res.Merges, res.Queries, res.SolverS, res.WallS, res.Incomplete)
-	fmt.Println("ends:", res.Ends)
-	var ks []string
-	for k := range res.EndDetails {
-		ks = append(ks, k)
+	if !*quiet {
+		fmt.Printf("load=%.1fs entry=%s params=%v workers=%d paths=%d forks=%d enum=%d merges=%d queries=%d solver=%.1fs wall=%.1fs incomplete=%v %s\n",
+			loadS.Seconds(), res.Entry, cfg.Params, cfg.Workers, res.Paths, res.Forks, res.ForksEnum, res.Merges, res.Queries, res.SolverS, res.WallS, res.Incomplete, res.Reason)
+		fmt.Println("ends:", res.Ends)
+		var ks []string
+		for k := range res.EndDetails {
+			ks = append(ks, k)
+		}
+		sort.Strings(ks)
+		for i, k := range ks {
+			if i >= 25 {
+				fmt.Printf("  ... %d more\n", len(ks)-i)
+				break
+			}
+			fmt.Printf("  %5d %s\n", res.EndDetails[k], k)
+		}
+		fmt.Println("cover:", res.Cover)
+		for _, v := range res.Violations {
+			fmt.Printf("VIOL kind=%s id=%q tags=%v x%d text=%s vector=%v where=%s\n", v.Kind, v.AssertID, v.Tags, v.Count, v.Text, v.Vector, v.Where)
+		}
+		for _, r := range res.Races {
+			fmt.Println(r)
+		}
+		fmt.Println("functions encoded:", len(res.Funcs), "stdlib interpreted:", len(res.StdFuncs), "models:", len(res.Models))
 	}
-	sort.Strings(ks)
-	for _, k := range ks {
-		fmt.Printf("  %5d %s\n", res.EndDetails[k], k)
-	}
-	fmt.Println("cover:", res.Cover)
-	for _, v := range res.Violations {
-		fmt.Printf("VIOL kind=%s id=%q tags=%v x%d text=%s vector=%v\n", v.Kind, v.AssertID, v.Tags, v.Count, v.Text, v.Vector)
-	}
-	for _, r := range res.Races {
-		fmt.Println(r)
-	}
-	fmt.Println("functions encoded:", len(res.Funcs))
-	if *jsonOut != "" {
-		b, _ := json.MarshalIndent(res, "", " ")
-		os.WriteFile(*jsonOut, b, 0644)
-	}
+	writeJSON()
 }
